@@ -832,6 +832,8 @@ fn gen_sampler_props(rng: &mut Rng) -> Vec<Prop> {
 }
 
 pub struct WideOpts {
+    /// never add a second overload of an entry point (the HLSL exporter renames overloads: C15's subject)
+    pub no_overloads: bool,
     /// allow `T g[];` (rejected by the Metal back end)
     pub unsized_arrays: bool,
     /// probability (percent) that a static sampler gets invalid properties
@@ -847,7 +849,7 @@ pub struct WideOpts {
 
 impl Default for WideOpts {
     fn default() -> Self {
-        WideOpts { unsized_arrays: true, bad_sampler_percent: 8, rich_percent: 40, allow_mesh: true, odd_percent: 50, max_pipes: 4 }
+        WideOpts { no_overloads: false, unsized_arrays: true, bad_sampler_percent: 8, rich_percent: 40, allow_mesh: true, odd_percent: 50, max_pipes: 4 }
     }
 }
 
@@ -1102,7 +1104,7 @@ pub fn gen_wide(rng: &mut Rng, o: &WideOpts) -> WProgram {
                         }
                     }
                 }
-                2 => {
+                2 if !o.no_overloads => {
                     // a second overload of an entry point (before or after the pipelines)
                     if let Some((_, e)) = entries.first().copied() {
                         if let WItem::Func(f) = &nodes[e].item {
